@@ -143,6 +143,7 @@ type Explorer struct {
 	events []Event
 	synced int
 	nondet []*Term
+	hidden int // environment-stub variables of this path (not on the replay tape)
 	model  *Model
 	cache  map[int]evalVal
 	kf     []string
@@ -452,6 +453,13 @@ func (x *Explorer) newNondet(s Sort) *Term {
 	}
 	x.nondet = append(x.nondet, t)
 	return t
+}
+
+// newHidden makes a solver variable that stands for an answer of the environment (a stubbed library call). It is
+// not part of the replay tape: the native run gets the real library's answer, which is one of the stub's answers.
+func (x *Explorer) newHidden(s Sort) *Term {
+	x.hidden++
+	return x.b.Var(fmt.Sprintf("h%d_%d", x.hidden, s.W), s)
 }
 
 // known marks entry into a known-finding region (fork on cond).
